@@ -316,8 +316,9 @@ DESCR = {"C25": "to_prolog() text of the ground program (cyclic and cycle-broken
 
 
 def run(pid, tier, seed):
-    n = 4000 if tier == "thorough" else 600
-    ps = progs.programs(seed * 32452843 + int(pid[1:]), n, max_choices=9, evidence=(pid != "C23"))
+    n = 4000 if tier == "thorough" else (1300 if pid == "C25" else 600)
+    ps = progs.programs(seed * 32452843 + int(pid[1:]), n, max_choices=9, evidence=(pid != "C23"),
+                        max_body=3 if pid == "C25" else 2)
     col = Collector("%s:metamorphic" % pid, "%d seeded programs of the bounded family; %s; distinct = program texts; non-trivial "
                     "= a reference probability strictly between 0 and 1" % (n, DESCR[pid]))
     for r in pmap("bounded.c25." + CHECKS[pid], ps):
